@@ -34,13 +34,29 @@ def _seg(line, i):
     return dict(now=int(f[0]), tmo=None if f[2] == "-" else int(f[2]), trs=f[5], scr=f[7])
 
 
-def probe():
-    """dict name -> int, or {} if the harness cannot be built / run against this tree"""
+def _cache_file(ltv):
+    return os.path.join(ltv.BUILD, "params_c13-%s.json" % ltv.repo_tree_hash())
+
+
+def probe(build=False):
+    """dict name -> int. With build=False (the converters below, which may run inside another property's Coq
+    lock) only a previously stored probe of this very tree is used; props/c13.py calls probe(build=True) before
+    it asks for the Coq build. {} if nothing is available: the converters then fall back to the source text."""
+    import json
     sys.path.insert(0, os.path.join(os.path.dirname(os.path.dirname(os.path.abspath(__file__))), "lib"))
     import ltv
     key = ltv.repo_tree_hash()
     if key in _cache:
         return _cache[key]
+    cf = _cache_file(ltv)
+    if os.path.exists(cf):
+        try:
+            _cache[key] = json.load(open(cf))
+            return _cache[key]
+        except Exception:
+            pass
+    if not build:
+        return {}
     out = {}
     try:
         h = ltv.build_harness("c13", ["c13.cc"])
@@ -86,6 +102,13 @@ def probe():
     except Exception as e:      # harness does not build / run: fall back to the source text
         sys.stderr.write("[params_c13] probing failed (%s); falling back to source text\n" % (str(e)[:200],))
     _cache[key] = out
+    if out:
+        try:
+            tmp = cf + ".%d.tmp" % os.getpid()
+            json.dump(out, open(tmp, "w"))
+            os.replace(tmp, cf)
+        except OSError:
+            pass
     return out
 
 
